@@ -38,7 +38,11 @@ implementation's layer k (either order) named X,Y, or `X` when it equals a diges
   proof n= pat= i= depth=       -> coords | err
   check n= pat= count= row= v= loc= proof=   -> true|false
   hcheck n= pat= row= idx= v=   -> true|false    (`MerkleMap::hash_check` directly)
-     values: `L<id>` leaf digest of identity id, `N<k>.<m>` node m of layer k of the tree;
+     values: `L<id>` leaf digest of identity id, `N<k>.<m>` node m of layer k of the tree,
+             `T|P|A|B<k>.<m>` that node's bytes truncated / padded / first half / second half
+             (a non-digest byte string; an atom of the free algebra);
+     a trailing `via=asset` token marks a verdict obtained end to end through
+     `BmffHash::verify_stream_hash` on a crafted BMFF stream (ignored by the model);
      row = `R<k>` (layer k) or a value list; proof = `none` | `-` | value list
 -/
 namespace C2pa.C16
@@ -130,11 +134,23 @@ def playProof (comb : α → α → α) : List Nat → Nat → Nat → α → Li
       | [] => none
     else playProof comb rest rowLen (index / 2) hash proof
 
-/-- "empty proof playback" loop (`None` arm) -/
-def playEmpty : List Nat → Nat → Nat → Nat
+/-- "empty proof playback" loop (`None` arm), as repaired (fixes/C16-none-proof-needs-no-sibling.patch):
+going up one layer is allowed only when the node has no sibling in the layer (it is carried up
+unchanged); `none` = `return false`. -/
+def playEmpty : List Nat → Nat → Nat → Option Nat
+  | [], _, index => some index
+  | layer :: rest, rowLen, index =>
+    if layer = rowLen then some index
+    else if index % 2 = 1 then
+      if index - 1 < layer then none else playEmpty rest rowLen (index / 2)
+    else if index + 1 < layer then none
+    else playEmpty rest rowLen (index / 2)
+
+/-- the `None` loop **before** the repair: `index /= 2` per layer, no sibling test -/
+def playEmptyPre : List Nat → Nat → Nat → Nat
   | [], _, index => index
   | layer :: rest, rowLen, index =>
-    if layer = rowLen then index else playEmpty rest rowLen (index / 2)
+    if layer = rowLen then index else playEmptyPre rest rowLen (index / 2)
 
 /-- `MerkleMap::hash_check` (`vec_compare` is equality) -/
 def hashCheck [DecidableEq α] (hashes : List α) (indx : Nat) (h : α) : Bool :=
@@ -153,7 +169,24 @@ def checkMerkleTree [DecidableEq α] (comb : α → α → α) (count : Nat) (ha
       match playProof comb layers hashes.length location hash p with
       | some (index, h) => hashCheck hashes index h
       | none => false
-    | none => hashCheck hashes (playEmpty layers hashes.length location) hash
+    | none =>
+      match playEmpty layers hashes.length location with
+      | some index => hashCheck hashes index hash
+      | none => false
+
+/-- `check_merkle_tree` as it was before the repair (kept to state the defect, Props/C16
+`pre_fix_none_arm_accepts_inner_node`). -/
+def checkMerkleTreePre [DecidableEq α] (comb : α → α → α) (count : Nat) (hashes : List α)
+    (hash : α) (location : Nat) (proof : Option (List α)) : Bool :=
+  if location ≥ count then false
+  else
+    let layers := layout count
+    match proof with
+    | some p =>
+      match playProof comb layers hashes.length location hash p with
+      | some (index, h) => hashCheck hashes index h
+      | none => false
+    | none => hashCheck hashes (playEmptyPre layers hashes.length location) hash
 
 end generic
 
@@ -194,6 +227,19 @@ def boolStr (b : Bool) : String := if b then "true" else "false"
 
 def natField (toks : List String) (k : String) : Nat := (field toks k).toNat!
 
+/-- a byte string that is *not* a digest of the tree: node `k.m` truncated by one byte (`T`),
+padded with one byte (`P`), its first (`A`) or second (`B`) half. In the free algebra such a
+string is an atom different from every identity and every node. -/
+def alienVal (tag : Nat) (t : Tree Dig) (s : String) : Option Dig :=
+  match (s.drop 1).toString.splitOn "." with
+  | [k, m] => do
+    let k ← k.toNat?
+    let m ← m.toNat?
+    let l ← t.layers[k]?
+    let _ ← l[m]?
+    some (Dig.leaf (2000000000 + tag * 100000000 + k * 1000000 + m))
+  | _ => none
+
 def parseVal (t : Tree Dig) (s : String) : Option Dig :=
   if s.startsWith "L" then (s.drop 1).toString.toNat?.map Dig.leaf
   else if s.startsWith "N" then
@@ -204,6 +250,10 @@ def parseVal (t : Tree Dig) (s : String) : Option Dig :=
       let l ← t.layers[k]?
       l[m]?
     | _ => none
+  else if s.startsWith "T" then alienVal 0 t s
+  else if s.startsWith "P" then alienVal 1 t s
+  else if s.startsWith "A" then alienVal 2 t s
+  else if s.startsWith "B" then alienVal 3 t s
   else none
 
 def parseVals (t : Tree Dig) (s : String) : Option (List Dig) :=
